@@ -7,7 +7,8 @@
   Parameter passing is specified as copy-in / copy-out; for calls in which no variable is passed by reference twice (`NoAlias`,
   the calls the correspondence generates) this is what references mean.  The machine's actual binding of references and
   temporaries is Model/Layout.lean (`bindParams`).
-  Conditions: zero is false, anything else true.  INTEGER arithmetic traps on overflow and on division by zero.
+  Conditions: zero is false, anything else true.  INTEGER arithmetic traps on overflow and on division by zero; `\\` truncates
+  toward zero and MOD has the sign of the dividend.
   `fuel` bounds the number of loop iterations and statement steps; `none` = out of fuel (no claim).
 -/
 namespace Qbee.Src
@@ -76,8 +77,8 @@ def evalB (op : BOp) (x y : Int) : Except String Int :=
   | .add => chk (x + y)
   | .sub => chk (x - y)
   | .mul => chk (x * y)
-  | .idiv => if y = 0 then .error "DIVISION_BY_ZERO" else chk (Int.fdiv x y)
-  | .mod => if y = 0 then .error "DIVISION_BY_ZERO" else chk (Int.fmod x y)
+  | .idiv => if y = 0 then .error "DIVISION_BY_ZERO" else chk (Int.tdiv x y)     -- the language: truncated toward zero
+  | .mod => if y = 0 then .error "DIVISION_BY_ZERO" else chk (Int.tmod x y)      -- the sign of the dividend
   | .eq => .ok (if x = y then -1 else 0)
   | .ne => .ok (if x = y then 0 else -1)
   | .lt => .ok (if x < y then -1 else 0)
